@@ -763,7 +763,9 @@ func init() {
 			// several equally short domains an unrelated host gets is not determined by the property)
 			{"example.com", "a.example.com", "x.a.example.com"}, {".b.example.com", ".a.b.example.com", ".example.com"}, {".aa.example.com", ".example.com", ".bb.example.com"}}
 		hosts := []string{"app.example.com", "x.a.example.com", "deep.x.a.example.com:8080", "x.a.example.com:443", "unrelated.net", "unrelated.net:81", "[::1]:8080", "example.com",
-			"y.a.b.example.com", "z.bb.example.com", "aa.example.com"}
+			"y.a.b.example.com", "z.bb.example.com", "aa.example.com",
+			// reached by address (a sidecar, an ingress, nginx auth_request on the same machine): an unrelated host like any other
+			"127.0.0.1:4180", "10.1.2.3", "[2001:db8::5]"}
 		n := 0
 		for _, secure := range []bool{false, true} {
 			for _, httponly := range []bool{false, true} {
@@ -774,7 +776,10 @@ func init() {
 							continue
 						}
 						path := []string{"", "/", "/app"}[n%3]
-						name := []string{"", "s", strings.Repeat("n", 60)}[(n/3)%3]
+						name := []string{"", "s", strings.Repeat("n", 60), "__Secure-sess", "__Host-sess"}[(n/3)%5]
+						if name == "__Host-sess" && (len(doms) > 0 || path == "/app") {
+							name = "__Secure-sess.id" // (a __Host- cookie has no Domain and Path=/ by definition; __Secure- says nothing about either)
+						}
 						for _, mode := range []string{"cookie", "redis", "rp"} {
 							if c.scale == 1 && mode != "cookie" && n%2 == 0 {
 								continue
@@ -844,6 +849,27 @@ func init() {
 						}
 					}
 				}
+			}
+		}
+		// minimal cookie sessions (tokens stripped) still carry every group: a user in hundreds of groups gets split cookies like anyone else
+		{
+			many := idpUser{Sub: "user-many", Email: "many@example.com", EmailVerified: true, PreferredUser: "many"}
+			var gs []interface{}
+			for i := 0; i < 320; i++ {
+				gs = append(gs, fmt.Sprintf("cn=team-%03d-%x,ou=groups,dc=example,dc=com", i, newRng(uint64(i)).bytes(6)))
+			}
+			many.Groups = gs
+			if e, err := newEnv(c, proxyCfg{CookieMinimal: true, CookieSecure: true, InjectRequest: defaultInject()}); err == nil {
+				b := newBrowser()
+				if lr := e.login(b, many, "/after"); lr.OK {
+					c.count("c18:minimal-many-groups")
+					e.do(reqSpec{Target: "/app/x", Cookie: b.cookieHeader()})
+					e.do(reqSpec{Target: "/oauth2/sign_out", Cookie: b.cookieHeader()})
+				} else {
+					c.violation("HARNESS", "login of a user in 320 groups failed (minimal cookie session)", nil)
+				}
+				c.casen("c18|minimal-many-groups", "")
+				e.close()
 			}
 		}
 		// spellings of cookie-samesite the documentation does not list: whatever validation lets through is the attribute the
